@@ -173,8 +173,10 @@ def _x4(ctx, rep):
             continue
         # accepted: boolean-mask selection of self.shape (order preserving)
         mask_ok = False
-        for e in sh_chain:
-            if isinstance(e, ast.Subscript) and unparse(e.value).replace(" ", "") == "np.array(self.shape)" and isinstance(e.slice, ast.Name):
+        for e0 in sh_chain:
+          for e in ast.walk(e0):
+            if isinstance(e, ast.Subscript) and unparse(e.value).replace(" ", "") in ("np.array(self.shape)", "np.asarray(self.shape)", "np.array(self._shape)") \
+                    and isinstance(e.slice, ast.Name):
                 mk = e.slice.id
                 inits = [unparse(v).replace(" ", "") for v in binds.get(mk, [])]
                 stores = [n for n in own_nodes(m.node) if isinstance(n, ast.Assign) and isinstance(n.targets[0], ast.Subscript)
